@@ -19,14 +19,19 @@ Kernel operations (the model predicts the value; byte strings are hex, `-` = emp
     bpline <a> <s> <line> <file> <addr>  → line <n|none> | none | panic
     bpinline <depth> <a> <s> <addr> → frames <n> | none | panic
 
-    bpmap <sym> <symindex> <addr>*  → served unparsed | served notbreakpad
+    bpmap <sym> <symindex> [<intent>|<ties>] <addr|iter>*
+                                    → served notbreakpad | served nomodule | served panic
                                       | served <look> ; <look> ; …      one `.sym` text served with a stored index
-                                        (valid / stale / corrupted), lookups on ONE symbol map (`BPC.serve`);
+                                        (own / of another file with the same or another MODULE line / corrupted);
+                                        which index the map uses is C10's `BP.mapStored` (`BPC.serve`); lookups on ONE map;
                                         <look> = none | panic
                                                | sym <addr> <size|none> <name> <n|none> [, frame <fn|none> <file|none> <line|none>]*
                                         an address `iter` = `iter_symbols()` collected at that point:
                                                iter <n> <addr>:<name>,… | iter panic   (`BPC.serveSession`)
-
+                                        the token containing `|`: `<intent>` = what the generator meant (statistics only),
+                                        `<ties>` = `s:<key>:<offset>,f:…,o:…` — C10's tie-break oracle for the index built
+                                        from the text (file offset of the entry that survived `sort_unstable + dedup`,
+                                        read off the implementation's own index when the case was generated)
     errjson <msg>                   → json <text>      `json!({"error": msg}).to_string()` = `JT.errorJson msg`
     badurl <path>                   → json <text> | known-path      `Api::query_api(path, "{}")` for a path that is
                                         none of the three endpoints = `JT.errorJson ("Unrecognized URL " ++ path)`
@@ -90,8 +95,23 @@ def showLook : BP.Look → String
     let frs := (r.frames.getD []).map fun f => s!" , frame {optHex f.function} {optHex f.file} {optNat f.line}"
     s!"sym {r.symAddr} {optNat r.size} {bytesHex r.name} {n}" ++ String.join frs
 
+/-- `<intent>|s:<key>:<offset>,f:<key>:<offset>,o:<key>:<offset>,…` → C10's tie-break oracle (0 = first candidate
+for a key without an entry) -/
+def pickOfToken (tok : String) : BP.Pick :=
+  let ties : List (String × Nat × Nat) :=
+    ((tok.splitOn "|").getD 1 "").splitOn "," |>.filterMap fun e =>
+      match e.splitOn ":" with
+      | [t, k, o] => some (t, nat! k, nat! o)
+      | _ => none
+  let f (t : String) (k : Nat) : Nat :=
+    match ties.find? (fun e => e.1 = t ∧ e.2.1 = k) with
+    | some e => e.2.2
+    | none => 0
+  ⟨f "s", f "f", f "o"⟩
+
 def showServed : BPC.Served → String
-  | .unparsed => "served unparsed"
+  | .noModule => "served nomodule"
+  | .mapPanic => "served panic"
   | .notBreakpad => "served notbreakpad"
   | .looks ls => "served " ++ " ; ".intercalate (ls.map showLook)
   | .session pre names post =>
@@ -143,11 +163,13 @@ def modelOp (l : String) : String :=
   | ["bpinline", d, a, s, addr] =>
     render (bpInline (hexBytes d) (hexBytes a) (hexBytes s) (nat! addr))
       (fun o => match o with | some n => s!"frames {n}" | none => "none") (fun _ => "err")
-  | "bpmap" :: t :: i :: addrs =>
+  | "bpmap" :: t :: i :: rest =>
+    let pick := pickOfToken ((rest.find? (·.contains '|')).getD "|")
+    let addrs := rest.filter (fun w => !w.contains '|')
     if addrs.contains "iter" then
-      showServed (BPC.serveSession (hexBytes t) (hexBytes i) ((addrs.takeWhile (· != "iter")).map nat!)
+      showServed (BPC.serveSession pick (hexBytes t) (hexBytes i) ((addrs.takeWhile (· != "iter")).map nat!)
         (((addrs.dropWhile (· != "iter")).drop 1).map nat!))
-    else showServed (BPC.serve (hexBytes t) (hexBytes i) (addrs.map nat!))
+    else showServed (BPC.serve pick (hexBytes t) (hexBytes i) (addrs.map nat!))
   | ["errjson", m] => s!"json {bytesHex (JT.errorJson (hexBytes m))}"
   | ["badurl", p] =>
     match JT.dispatch (hexBytes p) with
